@@ -135,7 +135,9 @@ class C01(core.Prop):
     rule = ("deployments of 1-3 generated devices (1-3 groups, all five kinds, three switch rules, printf and sexagesimal formats, disabled "
             "groups/vectors/elements, inheritance depth 1-3) x a network client with random fragmentation of both directions {whole, 1 byte, "
             "1024, random} and optionally a snooping client x histories of 3-25 operations (assign, set_value, selected values, state, enabling "
-            "of vectors and groups, client handshakes, client writes); non-trivial = some client view changed; distinct by content")
+            "of vectors and groups, client handshakes, client writes), settled after every operation; plus schedules: a client connects while the "
+            "device keeps changing, with 0-40 loop iterations between the steps (judged when everything has settled); non-trivial = some client "
+            "view changed; distinct by content")
     assumptions = ["the system is quiet between operations (all in-flight messages are delivered before the next one)",
                    "clients without BLOBs enabled (snooping clients) are not expected to see BLOB state or payload",
                    "elements are not enabled or disabled at run time (not among the property's operations)"]
@@ -146,6 +148,29 @@ class C01(core.Prop):
         for k in range(140 if tier == "quick" else 4000):
             devs, clients = sysgen.gen_deployment(rng)
             cases.append({"devices": devs, "clients": clients, "ops": gen_history(rng, devs, clients, rng.randint(3, 25)), "seed": k})
+        # schedules: the device keeps changing while a client connects; the loop runs a chosen number of iterations between the steps
+        for k in range(200 if tier == "quick" else 4000):
+            devs, clients = sysgen.gen_deployment(rng, ndev=1, kinds=["Text", "Number", "Switch"], snoop=False)
+            for lv in devs[0]["levels"]:
+                for g in lv["groups"]:
+                    g["enabled"] = True
+                    for v in g["vectors"]:
+                        v["enabled"] = True
+            vecs = drvgen.all_vectors(devs[0])
+            vn = rng.choice(sorted(vecs))
+            g, v = vecs[vn]
+            i = rng.randrange(len(v["elements"]))
+            ops, gaps = [["handshake", 0]], [k % 40]
+            for _ in range(rng.randint(2, 3)):
+                # the same element changes again and again while the client is still connecting
+                ops.append(["drv", 0, ["assign", vn, i, drvgen.random_value(rng, v["kind"])]])
+                gaps.append(rng.choice([0, 1, 2, 3]))
+            if rng.random() < 0.4:
+                op = drvgen.random_op(rng, devs[0], client=False)
+                if op[0] not in ("client", "enelem"):
+                    ops.append(["drv", 0, op])
+                    gaps.append(0)
+            cases.append({"devices": devs, "clients": clients, "ops": [["burst", ops, gaps]], "seed": 100000 + k, "race": True})
         return cases
 
     def model_input(self, c):
@@ -167,6 +192,8 @@ class C01(core.Prop):
         for k, (op, st) in enumerate(zip(c["ops"], obs["steps"])):
             if op[0] == "handshake":
                 shaken.add(op[1])
+            if op[0] == "burst":
+                shaken |= {o[1] for o in op[1] if o[0] == "handshake"}
             for ci in sorted(shaken):
                 cl = c["clients"][ci]
                 for di, d in enumerate(c["devices"]):
@@ -202,9 +229,11 @@ class C01(core.Prop):
     def histogram(self, cases, obs):
         h = {}
         for c in cases:
-            for op in c["ops"]:
+            for op in flat_ops(c)[0]:
                 k = op[0] if op[0] != "drv" else "drv:" + op[2][0]
                 h[k] = h.get(k, 0) + 1
+            if c.get("race"):
+                h["connect-while-changing"] = h.get("connect-while-changing", 0) + 1
             h["clients:%d" % len(c["clients"])] = h.get("clients:%d" % len(c["clients"]), 0) + 1
             h["devices:%d" % len(c["devices"])] = h.get("devices:%d" % len(c["devices"]), 0) + 1
         return h
